@@ -34,8 +34,11 @@ PID = "C17"
 CALCS = ["vasp", "aims", "lammps", "pwmat", "abinit", "qe", "wien2k", "elk", "siesta", "abacus", "cp2k", "crystal", "dftbp", "turbomole", "castep", "fleur"]
 
 
+RT_MODES = ["vasp", "abinit", "aims", "castep", "dftbp", "elk", "lammps", "pwmat"]        # writers/readers that need no calculator-specific extras
+
+
 def units(tier):
-    u = [("units", c) for c in CALCS] + [("table", 0), ("lattice", "wien2k"), ("lattice", "cells"), ("lattice", "cp2k"), ("sorting", 3), ("agreement", 0)]
+    u = [("units", c) for c in CALCS] + [("table", 0), ("lattice", "wien2k"), ("lattice", "cells"), ("lattice", "cp2k"), ("sorting", 3), ("agreement", 0)] + [("roundtrip", m) for m in RT_MODES]
     if tier == "thorough":
         u += [("sorting", 4)]
     return u
@@ -456,10 +459,74 @@ def _agree(cfs, sc, ds, pts, nd, A, e):
         return cfs.check_agreements_of_displacements(sc, ds, pts, ["file%d" % i for i in range(nd)])
 
 
+# ------------------------------------------------------------------------------- structure files (ground facts, not solver claims)
+def _rt_cells():
+    from phonopy.structure.atoms import PhonopyAtoms
+    tri = np.array([[4.1, 0.2, -0.3], [0.7, 5.2, 0.4], [-0.9, 1.1, 6.3]])
+    hexl = np.array([[3.2, 0, 0], [-1.6, 3.2 * np.sqrt(3) / 2, 0], [0, 0, 5.2]])
+    return {
+        "triclinic, species interleaved, first appearance not in ascending Z, positions outside [0,1)":
+            PhonopyAtoms(symbols=["Ti", "O", "Mg", "O", "Ti"], cell=tri, scaled_positions=[[0.1, 0.2, 0.3], [1.6, 0.7, 0.15], [0.35, -0.1, 0.55], [0.8, 0.45, 0.7], [0.25, 0.55, 0.95]]),
+        "hexagonal, cation first": PhonopyAtoms(symbols=["Zn", "Zn", "O", "O"], cell=hexl, scaled_positions=[[1 / 3, 2 / 3, 0.0], [2 / 3, 1 / 3, 0.5], [1 / 3, 2 / 3, 0.375], [2 / 3, 1 / 3, 0.875]]),
+        "three species, non-monotonic Z": PhonopyAtoms(symbols=["Ba", "Ti", "O", "O", "O"], cell=np.diag([4.0, 4.0, 4.1]), scaled_positions=[[0, 0, 0], [0.5, 0.5, 0.52], [0.5, 0.5, 0.02], [0.5, 0, 0.5], [0, 0.5, 0.5]]),
+    }
+
+
+def _same_crystal(a, b, tol=1e-5):
+    """same metric tensor (lattice up to a rigid rotation) and the same species at the same fractional positions modulo lattice vectors,
+    as multisets (writers may group atoms by species)"""
+    Ga = a.cell @ a.cell.T; Gb = b.cell @ b.cell.T
+    if np.abs(Ga - Gb).max() > 1e-5 * np.abs(Ga).max():
+        return "the metric tensor of the lattice changed by %.3g" % np.abs(Ga - Gb).max()
+    if len(a) != len(b) or sorted(a.symbols) != sorted(b.symbols):
+        return "species changed: %s -> %s" % (list(a.symbols), list(b.symbols))
+    used = set()
+    for s_, p in zip(a.symbols, a.scaled_positions):
+        hit = None
+        for j, (s2, p2) in enumerate(zip(b.symbols, b.scaled_positions)):
+            if j in used or s2 != s_:
+                continue
+            d = p - p2; d -= np.rint(d)
+            if np.abs(d).max() < tol:
+                hit = j; break
+        if hit is None:
+            return "no %s atom at fractional position %s after reading the file back (read back: %s at %s)" % (s_, np.round(p - np.floor(p), 5).tolist(), list(b.symbols), np.round(b.scaled_positions, 4).tolist())
+        used.add(hit)
+    return None
+
+
+def roundtrip_unit(u, res):
+    """write_crystal_structure -> read_crystal_structure through phonopy's own dispatch, for the interfaces that need no extra
+    calculator information: evaluated on three concrete cells (text formats have no solver theory; these are ground facts)."""
+    import tempfile, shutil, os
+    from phonopy.interface.calculator import write_crystal_structure, read_crystal_structure
+    mode = u[1]
+    for label, cell in _rt_cells().items():
+        d = tempfile.mkdtemp(prefix="verif_c17_")
+        try:
+            fn = os.path.join(d, "structure")
+            info = (None, ["%s.in" % s_ for s_ in dict.fromkeys(cell.symbols)]) if mode == "elk" else None
+            try:
+                write_crystal_structure(fn, cell, interface_mode=mode, optional_structure_info=info)
+                back = read_crystal_structure(fn, interface_mode=mode)[0]
+                why = _same_crystal(cell, back)
+            except Exception as exc:
+                why = "%s: %s" % (type(exc).__name__, exc)
+        finally:
+            shutil.rmtree(d, ignore_errors=True)
+        ok = why is None
+        res.queries.append({"name": "%s structure file written and read back describes the same crystal (%s) [ground fact]" % (mode, label), "verdict": "unsat" if ok else "sat", "seconds": 0.0, "nvars": 0, "nontrivial": False, "hash": "ground"})
+        if not ok:
+            res.violations.append({"key": "%s:roundtrip:%s:%s" % (PID, mode, label.split(",")[0].replace(" ", "_")), "what": "%s interface, cell '%s': %s" % (mode, label, why), "replay": {"interface": mode, "cell": label}})
+    res.twins.append({"name": "roundtrip twin", "verdict": "sat"})
+    res.samples.append({"unit": res.unit, "cells": list(_rt_cells())})
+    return res
+
+
 def run_unit(u):
     res = Result("/".join(str(x) for x in u))
     harness.setup()
-    return {"units": units_unit, "table": table_unit, "lattice": lattice_unit, "sorting": sorting_unit, "agreement": agreement_unit}[u[0]](u, res)
+    return {"units": units_unit, "table": table_unit, "lattice": lattice_unit, "sorting": sorting_unit, "agreement": agreement_unit, "roundtrip": roundtrip_unit}[u[0]](u, res)
 
 
 def main(tier, seed):
@@ -467,7 +534,7 @@ def main(tier, seed):
     harness.setup()
     us = units(tier)
     chk.bounds = ["16 calculators (exhaustive)", "lengths in (0.5, 20), angles with |cos| < 0.9, sin > 0.1 and Gram determinant > 0.01", "symbol lists of length <= 3 (quick) / 4 (thorough) over a 3-letter alphabet"]
-    chk.outside = ["structure files written and read back by the 16 interfaces and FORCE_SETS pairing through parsers (text formats: no solver theory)", "load()/load_helper defaults", "CODATA vintage: constants are those of phonopy/units.py"]
+    chk.outside = ["structure files as a solver claim (text formats: no solver theory): 8 interfaces that need no calculator-specific extras are evaluated on three concrete cells as ground facts; the other 8 interfaces and FORCE_SETS pairing through parsers are not covered", "load()/load_helper defaults", "CODATA vintage: constants are those of phonopy/units.py"]
     chk.assumptions = ["decimal literals of units.py taken at face value as exact rationals, pi boxed to 20 digits, square roots as algebraic numbers",
                        "cos/sin uninterpreted with sin^2+cos^2=1; CrossHair verdict 'Confirmed over all paths' only"]
     chk.run_units(run_unit, us)
